@@ -1,7 +1,7 @@
 """C08 - cache keys are canonical per bound arguments and separate different arguments.
 
-proof: lean/CashewsVerif/Props/C08.lean (key depends only on the bound arguments; omitted defaults and
-       positional-vs-keyword forms keep them; separated templates are injective on ':'-free field texts;
+proof: lean/CashewsVerif/Props/C08.lean (key depends only on the bound arguments; omitted defaults,
+       positional-vs-keyword forms and reordered keyword arguments keep the key; separated templates are injective on ':'-free field texts;
        generated templates are separated; per-type injectivity of the rendering incl. UTF-8 decoding and hex,
        and the exact shape of the bytes collisions).
 tie:   real functions with every signature shape of <= 4 parameters are built with exec; for each, automatic
@@ -43,6 +43,8 @@ PARTIAL = (
     "not modelled: positional-only parameters, format specs / conversions / attribute and index lookups in template fields "
     "({a.b}, {a:hash}, {a!r}), the registered format functions, list/set/Exception/other value types, dicts with non-str keys "
     "(a TypeError while rendering an unmentioned argument also flips the formatter to its slow path), braces inside literals. "
+    "Insertion order of a dict passed as an argument: proved for the rendered text of a top-level dict only, nested dicts and the lift to "
+    "whole calls rest on the correspondence (call forms with flipped dict orders are generated). "
     "Separation is only claimed (and only checked) for templates whose consecutive fields are separated by a literal containing ':', "
     "for field texts without ':', for values of one structural type, and not under the deprecated key_context(rewrite=True) when a "
     "context name shadows a field; bytes are excluded from the proved per-type injectivity because the code's rendering of bytes is "
